@@ -246,6 +246,60 @@ impl<'a> Session<'a> {
         verif::disarm_abort();
     }
 
+    /// thousands of short searches on one engine instance (state carried from go to go: counters, tables, stored pv);
+    /// recorded compactly: per position, the distinct (bestmove, first pv move, ponder) answers with their counts
+    fn burst(&mut self, step: &Value) {
+        let cap = step.get("n").and_then(Value::as_u64).unwrap_or(1000);
+        // keep going until the engine has visited this many negamax nodes in total (hook H5 reports them per iteration)
+        let want_nodes = step.get("nodes").and_then(Value::as_u64).unwrap_or(0);
+        let mut nodes: u64 = 0;
+        let mut n: u64 = 0;
+        let positions: Vec<Value> = step.get("positions").and_then(|p| p.as_array()).cloned().unwrap_or_default();
+        if positions.is_empty() { return; }
+        let gop = step.get("go").cloned().unwrap_or(json!({"depth": 1}));
+        let mut tallies: Vec<std::collections::BTreeMap<(String, String, String), u64>> = vec![Default::default(); positions.len()];
+        verif::disarm_abort();
+        verif::take_iterations();
+        for i in 0..cap {
+            if want_nodes > 0 && nodes >= want_nodes { break; }
+            n = i + 1;
+            let k = (i as usize) % positions.len();
+            let fen = str_of(&positions[k], "fen");
+            let moves: Vec<String> = positions[k].get("moves").and_then(|x| x.as_array()).map(|a| a.iter().map(|m| m.as_str().unwrap_or("").to_string()).collect()).unwrap_or_default();
+            let f = match Fen::from_str(&fen) { Ok(f) => f, Err(_) => continue };
+            self.engine.accept(UciCommand::PositionFrom { fen: f, moves: moves.iter().filter_map(|m| UciMove::from_str(m).ok()).collect() });
+            let (go, _, _) = build_go(&gop);
+            self.engine.accept(UciCommand::Go { go });
+            let mut pv1 = "none".to_string();
+            let started = Instant::now();
+            loop {
+                match self.rx.recv_timeout(WATCHDOG) {
+                    Ok(UciTxCommand::Info { info }) => {
+                        if let Some(pv) = &info.principal_variation { if let Some(m) = pv.first() { pv1 = m.to_string(); } }
+                    }
+                    Ok(UciTxCommand::BestMove { best_move, ponder_move }) => {
+                        let key = (best_move.map_or("none".to_string(), |m| m.to_string()), pv1.clone(), ponder_move.map_or("none".to_string(), |m| m.to_string()));
+                        *tallies[k].entry(key).or_insert(0) += 1;
+                        nodes += verif::take_iterations().last().map_or(1, |x| x.1.max(1));
+                        break;
+                    }
+                    Ok(_) => {}
+                    Err(_) => {
+                        self.out.emit(&json!({"c": self.id, "ev": "timeout", "why": format!("burst: go number {} got no bestmove ({} ms)", i + 1, started.elapsed().as_millis())}));
+                        self.dead = true;
+                        return;
+                    }
+                }
+            }
+        }
+        for (k, t) in tallies.iter().enumerate() {
+            let answers: Vec<Value> = t.iter().map(|((b, p, q), c)| json!([b, p, q, c.to_string()])).collect();
+            self.out.emit(&json!({"c": self.id, "ev": "burst", "fen": str_of(&positions[k], "fen"), "moves": positions[k].get("moves").cloned().unwrap_or(json!([])),
+                                  "go": gop, "n": n.to_string(), "nodes": nodes.to_string(), "answers": answers}));
+        }
+        self.fen = str_of(&positions[((n as usize) + positions.len() - 1) % positions.len()], "fen");
+    }
+
     fn probe_fen(&mut self) {
         match self.engine.verif_dump_fen(Duration::from_secs(20)) {
             Some(f) => self.out.emit(&json!({"c": self.id, "ev": "probe", "what": "fen", "fen": f})),
@@ -312,6 +366,7 @@ fn run_steps(out: &mut Out, id: u64, steps: &[Value]) {
                 s.position(&str_of(step, "fen"), &moves);
             }
             "go" => s.go(step),
+            "burst" => s.burst(step),
             "probe_fen" => s.probe_fen(),
             "fresh" => {
                 match Session::fresh_score(&s.fen, &s.moves) {
